@@ -36,6 +36,14 @@ def step (st : St) (toks : List String) : St × List String :=
     | some q => qStep st (.cancel q)
     | none => (st, ["bad-op"])
   | ["q", "rel"] => qStep st .release
+  | ["q", "relcancel", q] => match q.toNat? with
+    -- Release whose critical section races with the cancellation of parked query q: the model runs the two
+    -- critical sections in the only order the real mutex allows (release first), one observation
+    | some q =>
+      let (q1, gs) := RRQueue.step .loop st.q .release
+      let (q2, _) := RRQueue.step .loop q1 (.cancel q)
+      ({ st with q := q2 }, [qObs q2 gs])
+    | none => (st, ["bad-op"])
   | ["q", "adj", c] => match c.toInt? with
     | some c => qStep st (.adjust c)
     | none => (st, ["bad-op"])
@@ -54,6 +62,12 @@ def step (st : St) (toks : List String) : St × List String :=
   | ["s", "rel", n] => match n.toInt? with
     | some n => sStep st (.release n)
     | none => (st, ["bad-op"])
+  | ["s", "relcancel", n, i] => match n.toInt?, i.toNat? with
+    | some n, some i =>
+      let (s1, g1, f1) := Sem.step st.s (.release n)
+      let (s2, g2, f2) := Sem.step s1 (.cancel i)
+      ({ st with s := s2 }, [sObs s2 (g1 ++ g2) (f1 ++ f2)])
+    | _, _ => (st, ["bad-op"])
   | ["s", "size", n] => match n.toInt? with
     | some n => sStep st (.setSize n)
     | none => (st, ["bad-op"])
